@@ -46,9 +46,12 @@ func genAttrs(r *common.Rand, name xml.Name, top bool) []xml.Attr {
 			add(nsXML, "lang", pick(r, []string{"en", "de-CH"}))
 		case 5:
 			if name.Space != "" {
-				// duplicate declaration (mellium.im/issue/75): only on namespaced elements,
-				// see DESIGN-notes/C05.md for why the other case is not generated
+				// duplicate declaration (mellium.im/issue/75)
 				add("", "xmlns", pick(r, []string{name.Space, "urn:dup"}))
+			} else if top && isStanzaLocal(name.Local) {
+				// a top-level stanza in raw spelling: no namespace in the name, the declaration as
+				// an attribute (the stream's namespace, the other stanza namespace, a foreign one)
+				add("", "xmlns", pick(r, []string{nsClient, nsServer, "urn:dup"}))
 			}
 		case 6:
 			add("urn:attr", "k", pick(r, valPool))
@@ -58,6 +61,8 @@ func genAttrs(r *common.Rand, name xml.Name, top bool) []xml.Attr {
 	}
 	return as
 }
+
+func isStanzaLocal(l string) bool { return l == "iq" || l == "message" || l == "presence" }
 
 func genName(r *common.Rand, top bool) xml.Name {
 	if r.Chance(1, 2) && top || r.Chance(1, 6) {
@@ -70,7 +75,7 @@ func genName(r *common.Rand, top bool) xml.Name {
 func genElement(r *common.Rand, depth int, top bool, big int) []xml.Token {
 	name := genName(r, top)
 	start := xml.StartElement{Name: name, Attr: genAttrs(r, name, top)}
-	if !top && name.Space != "" && r.Chance(1, 3) {
+	if name.Space != "" && r.Chance(1, 3) {
 		// the RAW spelling of the same element (as xmlstream.Wrap-based payloads and
 		// Decoder.RawToken produce it): no namespace in the name, an xmlns attribute instead;
 		// children without a namespace of their own then live in that namespace
